@@ -357,6 +357,7 @@ def case_stream_search(ctx, rng, idx):
            cls="%s:streams-within-request" % wrapper, detail={**tag, "final_Ns": got_Ns})
     check_relations(ctx, s, "%s(%s)" % (wrapper, name), Hkl, False,
                     {**tag, "final_Ns": got_Ns})
+    ctx.sample("stream-search", {**tag, "final_Ns": got_Ns})
     ctx.sig(wrapper, name, K, M, ns, tuple(got_Ns), P is None)
 
 
